@@ -71,7 +71,7 @@ func Verif_C02_Faults(withQ int) {
 	menu := []int{vActRender, vActNothing, vActError, vActDeferErr, vActBadSyntax, vActDeferOK, vActPanic}
 	for _, g := range []string{"ga", "gb"} {
 		vSet(g, pp, "A", vAct(menu...))
-		vSet(g, pp, "B", vAct(vActRender, vActNothing, vActError, vActBadSyntax))
+		vSet(g, pp, "B", vAct(vActRender, vActNothing, vActError, vActBadSyntax, vActDeferOK))
 	}
 	addOther := func(other string) {
 		w.addPkg(other, true, "h1:new-"+other, nil, []string{other + ".go"}, []vTypeSpec{{name: "T", tags: vBoth}})
@@ -165,6 +165,8 @@ func Verif_C02_Faults(withQ int) {
 		// success: no fault may have been swallowed
 		for _, l := range vState.log {
 			verifsym.Assert(!vHasSub(l, ":act=4:") && !vHasSub(l, ":act=7:"), "a generator error / unparseable rendering was swallowed")
+			// a type whose generator registered a failing deferred callback: that callback must have failed the run
+			verifsym.Assert(!vHasSub(l, ":act=6:"), "the error of a deferred callback was swallowed")
 		}
 		// every registered deferred callback ran (a failing one cannot have been skipped silently)
 		for _, l := range vState.log {
